@@ -149,9 +149,12 @@ def run(prop, tier, replay=None):
     if mc["violated"]:
         path = vlib.save_replay(prop, "model_" + mc["violated"], dict(kind="model", invariant=mc["violated"], tlc_tail=mc["out"][-6000:]))
         violations.append(("model invariant %s violated" % mc["violated"], path))
+    replay_worker = None
     if replay:
         with open(replay) as f:
             scripts = [json.load(f)["script"]]
+        if scripts[0].get("events") is not None:       # a script of the handler-reconfiguration family
+            replay_worker, scripts = scripts, []
     else:
         scripts = scripts_for(tier, rng)
     by_id = {s["id"]: s for s in scripts}
@@ -182,6 +185,34 @@ def run(prop, tier, replay=None):
             kind="trace", property=prop, script=by_id.get(sid), rejected_at_line=r["line"], event=ev, why=what,
             trace=[json.loads(x) for x in r["lines"]]))
         violations.append(("%s: %s at line %d (%s)" % (sid, what, r["line"], ev["e"]), path))
+    # the last clause: reconfiguring from within a handler neither deadlocks nor affects the invocation in
+    # progress - a real Watchexec whose action / error handlers replace the path set, the watcher kind, the
+    # throttle, each other and themselves from inside their own invocation (worker_driver; a run that hangs
+    # is given up by the driver's watchdog and ends in a `hang` line); judged by ActionWorker's trace validation
+    rextra = {}
+    if not replay or replay_worker:
+        import workcheck, workgen
+        rscripts = replay_worker or workgen.reconfig_scripts(rng, 150 if tier == "quick" else 3000)
+        rby = {s["id"]: s for s in rscripts}
+        rtp = workcheck.run_driver(rscripts, "drv_C13_reconfig")
+        left = []
+        racc, rrej, rstats, rtotal = vlib.validate_traces("WorkerTrace.tla", "WorkerTrace_C15.cfg", rtp, "val_C13_reconfig", shards=12, leftover=left)
+        rrej, rexpl = vlib.second_opinion("WorkerTraceObs.tla", "WorkerTraceObs_C15.cfg", rrej, "obs_C13_reconfig", leftover=left)
+        racc += len(rexpl)
+        for r in rrej:
+            sid = r["script"] or ""
+            hung = any('"e":"hang"' in ln for ln in r["lines"])
+            what = ("a handler that reconfigures Watchexec from inside its own invocation never returned: deadlock" if hung
+                    else "after a reconfiguration from inside a handler the run is not a behaviour of ActionWorker")
+            path = vlib.save_replay(prop, "%s_%s" % (sid, vlib.digest(r["event"])), dict(
+                kind="trace", property=prop, script=rby.get(sid), rejected_at_line=r["line"], event=r["event"], why=what,
+                trace=[json.loads(x) for x in r["lines"]]))
+            violations.append(("%s: %s at line %d (%s)" % (sid, what, r["line"], r["event"]["e"]), path))
+        acc += racc
+        total += rtotal
+        stats["distinct"] += rstats["distinct"]
+        stats["generated"] += rstats["generated"]
+        rextra = dict(handler_reconfiguration_scripts=rtotal, handler_reconfiguration_accepted=racc)
     with open(tp) as f:
         scen = vlib.split_scenarios(f.readlines())
     distinct = {vlib.digest({k: v for k, v in s.items() if k not in ("id", "origin")}) for s in scripts if nontrivial(s)}
@@ -196,7 +227,7 @@ def run(prop, tier, replay=None):
         exhaustive=False, samples=samples,
         checker_cmd="tlc MC_Fs.tla ; fs_driver ; tlc FsTrace.tla -config FsTrace.cfg (per shard) ; a rejected scenario: tlc FsTraceObs.tla -config FsTraceObs.cfg",
         internal_steps_differ_but_observably_conforming=len(explained),
-        script_families=sorted({s.get("origin", "?") for s in scripts}))
+        script_families=sorted({s.get("origin", "?") for s in scripts}), **rextra)
     assumptions = [
         "the OS watcher is replaced by a recording notify::Watcher through the cfg(watchexec_verif) factory: call order and arguments are judged, not what inotify would report",
         "a configuration change made inside a watcher call stands for a change from another thread at that point of the worker's loop",
